@@ -168,11 +168,16 @@ def work(ctx, tier):
         compare(ctx, sc, ents, stats)
         ctx.add_hash("nontrivial", sc)
         ctx.inc("sweep_scenarios")
+    if ctx.shard == 0:
+        from . import hang
+
+        hang.twin_runs_with_a_hung_attempt(ctx, rounds=1 if tier == "quick" else 4)
     common.flush_stats(ctx, stats)
 
 
 def conclude(ctx):
     floors = {"pairs_compared": (ctx.cnt["pairs_compared"], 5000)}
+    floors["hung_attempt_twin_comparisons"] = (ctx.cnt["hung_attempt_twin_comparisons"], 6)
     floors["scenarios_with_raising_attempt_hook_same_delivery"] = (ctx.cnt["scenarios_with_raising_attempt_hook_same_delivery"], 100)
     for f in ("SS", "SA", "AS", "AA"):
         floors["pair_family:" + f] = (ctx.cnt["pair_family:" + f], 500)
@@ -184,7 +189,8 @@ def conclude(ctx):
         rule=(
             "each scenario (random, incl. special exceptions, hook-fault plans, budgets, breakers, placements, 1-3 calls; plus a strided sweep) is executed through every entry point "
             "(all 20, or the 6 breaker-carrying ones when a breaker is configured) and the projections {operation invocations, strategy calls, handler/before_sleep calls, sleeps, polls, "
-            "budget and breaker interactions, metric and log events, canonical final} are compared with a randomly chosen reference entry; distinct_nontrivial = distinct scenarios compared"
+            "budget and breaker interactions, metric and log events, canonical final} are compared with a randomly chosen reference entry; plus (real time, real worker threads / wait_for) sync entry points against "
+            "their async twins when attempt 1 really hangs past attempt_timeout_s; distinct_nontrivial = distinct scenarios compared"
         ),
         evaluations=ctx.cnt["calls"],
         nontrivial=len(ctx.sets["nontrivial"]),
@@ -202,6 +208,27 @@ def conclude(ctx):
 
 def replay(data):
     p = data["payload"]
+    if "hang" in p:
+        import collections
+
+        from . import hang
+
+        class C:
+            cnt = collections.Counter()
+            bad = []
+
+            def inc(self, *a):
+                pass
+
+            def viol(self, k, m, pl):
+                self.bad.append(m)
+
+        c = C()
+        hang.twin_runs_with_a_hung_attempt(c)
+        for m in c.bad:
+            print("  !!", m)
+        print("replay:", "violation reproduced" if c.bad else "no violation on this tree")
+        return 1 if c.bad else 0
     sc, a, b = p["scenario"], p["entry"], p["other"]
     ra, rb = projections(sc, a), projections(sc, b)
     bad = False
